@@ -395,7 +395,65 @@ def monitor_years(cs, cs_ra, highest):
             return f"{c.matched_text()!r}: single candidate edition but no guess"
         if len(cands) > 1 and g is not None and not c.year:
             return f"{c.matched_text()!r}: several candidate editions, no year, but a guess was made"
+        if len(cands) > 1 and g is not None and c.year:
+            # own year (not inherited from a parallel citation sharing the start): the guess must be the only
+            # candidate publishing in that year
+            shared = getattr(c, "full_span_start", None) is not None and sum(
+                1 for d in cs if getattr(d, "full_span_start", None) == c.full_span_start) > 1
+            if not shared:
+                import datetime
+                now = datetime.datetime.now().year
+                pub = [e for e in cands if c.year <= now and (e.start is None or e.start.year <= c.year)
+                       and (e.end is None or e.end.year >= c.year)]
+                if pub != [g]:
+                    return (f"{c.matched_text()!r} ({c.year}): guessed {g.short_name} ({g.reporter.name}) although the candidates "
+                            f"publishing in {c.year} are {[e.reporter.name for e in pub]}")
     want = [c for c in cs if not isinstance(c, ResourceCitation) or c.edition_guess]
     if [(type(c).__name__, c.span()) for c in want] != [(type(c).__name__, c.span()) for c in cs_ra]:
         return "remove_ambiguous=True is not the default result minus unguessed resource citations"
     return None
+
+
+# ------------------------------------------------------------------ regex oracle vs the engine model
+PIDS = ["PPostFull", "PPreFull", "PPostShort", "PPostLaw", "PPostJournal", "PShortAnte", "PSupraAnte", "PDefYear", "PYearMatch"]
+PRE_RX = """From EV Require Import Base.Str Base.Corr Regex.Syntax Regex.Decl Regex.Match Gen.Unicode Gen.MetaRegex.
+Open Scope nat_scope.
+Definition rx_table (pid : nat) : re * nat :=
+  match pid with
+  | 0 => (meta_PPostFull, length meta_PPostFull_names) | 1 => (meta_PPreFull, length meta_PPreFull_names)
+  | 2 => (meta_PPostShort, length meta_PPostShort_names) | 3 => (meta_PPostLaw, length meta_PPostLaw_names)
+  | 4 => (meta_PPostJournal, length meta_PPostJournal_names) | 5 => (meta_PShortAnte, length meta_PShortAnte_names)
+  | 6 => (meta_PSupraAnte, length meta_PSupraAnte_names) | 7 => (meta_PDefYear, length meta_PDefYear_names)
+  | _ => (meta_PYearMatch, length meta_PYearMatch_names)
+  end.
+Definition rx_run (c : nat * str) : option (nat * nat * list (option (nat * nat))) :=
+  let (r, ng) := rx_table (fst c) in
+  let res := if Nat.eqb (fst c) 8
+             then match match_at U false (snd c) r 0 with Some (j, cp) => Some (0, j, cp) | None => None end
+             else search U false (snd c) r in
+  match res with
+  | Some (i, j, cp) => Some (i, j, map (fun n => cap_get n cp) (seq 1 ng))
+  | None => None
+  end.
+Definition rx_eqb := opt_eqb (pair_eqb (pair_eqb Nat.eqb Nat.eqb) (list_eqb (opt_eqb (pair_eqb Nat.eqb Nat.eqb)))).
+"""
+RX_TY = ("nat * str", "option (nat * nat * list (option (nat * nat)))")
+
+
+def regex_cases(rec, slots):
+    """one case per recorded metadata search: the engine model on the generated AST must return the same
+    span and captures as the `regex` module did"""
+    out = []
+    for (pid, text), r in rec.searches.items():
+        names = slots.get(pid, {})
+        ng = len(set(names.values()))
+        if r is None:
+            exp = "None"
+        else:
+            sp = [None] * ng
+            for k, v in r["groups"].items():
+                if k in names and v is not None:
+                    sp[names[k] - 1] = v
+            exp = (f"(Some ({r['start']}, {r['end']}, [" + "; ".join("None" if v is None else f"Some ({v[0]}, {v[1]})" for v in sp) + "]))")
+        out.append((f"({PIDS.index(pid)}, {E.s(text)})", exp, dict(stream="regex-oracle", pattern=pid, window=text, python=r)))
+    return out
